@@ -26,9 +26,11 @@ def elapsed_whole_seconds(a, b):
 class RateOfChange(Job):
     prop = "C10"
 
-    def __init__(self, n, tcarrier="datetime64", canary=None, frac=False):
+    def __init__(self, n, tcarrier="datetime64", canary=None, frac=False, ordered=True):
         self.n, self.tcarrier, self.canary, self.frac = n, tcarrier, canary, frac
-        self.name = f"rate_of_change n={n} time={tcarrier}{' sub-second stamps' if frac else ''}" + (f" CANARY={canary}" if canary else "")
+        self.ordered = ordered      # False: distinct whole-second stamps in any order (used by C02 only; C10 speaks of increasing axes)
+        self.name = (f"rate_of_change n={n} time={tcarrier}{' sub-second stamps' if frac else ''}{'' if ordered else ' unordered times'}"
+                     + (f" CANARY={canary}" if canary else ""))
         if canary:
             self.expect_canary_sat = True
             self.validate_witnesses = False
@@ -39,7 +41,13 @@ class RateOfChange(Job):
     def declare(self, V):
         S = Struct()
         S.x = V.floats("x", self.n, nan=True)
-        S.t = V.times_increasing("t", self.n, frac=self.frac)
+        if self.ordered:
+            S.t = V.times_increasing("t", self.n, frac=self.frac)
+        else:
+            import itertools
+            S.t = [V.time(f"t{i}") for i in range(self.n)]
+            for a, b in itertools.combinations(S.t, 2):
+                V.assume(mk_not(mk_eq(a.s, b.s)))
         S.thr = V.float("thr", lo=0)
         return S
 
